@@ -42,6 +42,8 @@ type dlScript struct {
 	// custom adapter: the messages the transfer agent answers a download request with
 	Adapter string     `json:"adapter"`
 	Msgs    []agentMsg `json:"msgs"`
+	// ssh adapter: the answers the far side gives to get-object
+	Answers []sshAnswer `json:"answers"`
 }
 type agentMsg struct {
 	Ev   string `json:"ev"`   // progress | complete | bogus | garbage | eof
@@ -252,6 +254,18 @@ func runDL(sc *dlScript, base string) dlResult {
 		gitcfg["lfs.customtransfer.verifagent.args"] = "agent " + mf + " " + agentDir
 		gitcfg["lfs.customtransfer.verifagent.concurrent"] = "false"
 	}
+	sshLog := ""
+	if sc.Adapter == "ssh" {
+		ab, _ := json.Marshal(sc.Answers)
+		af := filepath.Join(dir, "ssh-answers.json")
+		os.WriteFile(af, ab, 0644)
+		sshLog = af + ".log"
+		self, _ := os.Executable()
+		gitcfg["lfs.url"] = "ssh://git@verif.invalid/repo.git"
+		gitcfg["core.sshcommand"] = self + " sshsrv " + af
+		gitcfg["lfs.concurrenttransfers"] = "1"
+		gitcfg["lfs.ssh.automultiplex"] = "false"
+	}
 	c, err := lfsapi.NewClient(lfshttp.NewContext(nil, nil, gitcfg))
 	if err != nil {
 		res.Result = "infra: " + err.Error()
@@ -304,6 +318,17 @@ func runDL(sc *dlScript, base string) dlResult {
 			res.Final = "stale" // the file that was there before, untouched
 		} else {
 			res.Final = "corrupt"
+		}
+	}
+	if sshLog != "" {
+		if lb, err := os.ReadFile(sshLog); err == nil {
+			for _, l := range strings.Split(string(lb), "\n") {
+				if strings.HasPrefix(l, "get-object ") {
+					res.Ranges = append(res.Ranges, 0)
+				}
+			}
+		} else {
+			res.Result = "infra: the scripted far side was never started: " + err.Error()
 		}
 	}
 	if st, err := os.Stat(partFile); err == nil {
